@@ -282,6 +282,36 @@ static int run_sequence(const std::vector<int> &h, const std::string &replay, bo
     sq::sample(replay + " = " + seq_text(h) + ": " + std::to_string(L) + " bytes, " + std::to_string(L) + " truncation points");
   if (bad)
     return sq::H_VIOL;
+  // ---- (i') the same sequence through the other WriteStream, a FixedBufferWriter of exactly the
+  // predicted size (compute the size, allocate, write): nothing may be rejected, and what
+  // getWrittenView() shows reads back equal.  A failure here is reported but does not end the sequence.
+  {
+    FixedBufferWriter fw(L);
+    std::string why;
+    size_t i = 0;
+    try {
+      for (; i < h.size(); i++) {
+        sq::stat("transitions");
+        write_value(fw, h[i]);
+      }
+    } catch (const std::exception &e) {
+      why = std::string("write of value ") + std::to_string(i) + " (" + VNAME[h[i]] + ") at cursor " + std::to_string(fw.cursor) + " threw: " + e.what();
+    }
+    if (why.empty() && !h.empty()) {
+      if (fw.cursor != L || fw.available() != 0)
+        why = "cursor " + std::to_string(fw.cursor) + " available " + std::to_string(fw.available()) + " after writing " + std::to_string(L) + " bytes";
+      else {
+        std::shared_ptr<AbstractArray<uint8_t>> wv = fw.getWrittenView();
+        if (wv->size() != L || (L && memcmp(wv->begin(), bw.buffer->begin(), L) != 0))
+          why = "getWrittenView() differs from what BufferWriter produced";
+      }
+    }
+    if (verbose)
+      printf("  FixedBufferWriter(%zu): %s\n", L, why.empty() ? "accepted everything, same bytes" : why.c_str());
+    if (!why.empty())
+      sq::viol(std::string("FixedBufferWriter as WriteStream|a sequence of exactly the predicted size is not accepted|") + (i + 1 >= h.size() ? "last value ends at the capacity" : "inner value"), replay,
+          seq_text(h) + " into FixedBufferWriter(" + std::to_string(L) + "): " + why);
+  }
   // ---- (ii) every truncation point
   for (size_t p = 0; p < L; p++) {
     sq::stat("truncations");
@@ -337,15 +367,9 @@ int main(int argc, char **argv)
   }
   sq::make_scratch();
   const int depth = vr::thorough() ? 4 : 3;
-  const int nshards = 64;
-  vr::run_sharded(nshards, [&](int shard, long long resume_after) {
-    sq::shard_begin("roundtrip", shard, resume_after);
-    sq::Explorer ex(NVAL, depth);
-    ex.tag = "seq";
-    ex.run = [](const std::vector<int> &h, const std::string &rp) { return run_sequence(h, rp, false); };
-    ex.sigctx = [](const std::vector<int> &h) { return std::string("stream round trip|crash|") + (h.empty() ? "empty sequence" : VCLS[h.back()]); };
-    ex.go(shard, nshards, resume_after);
-  });
+  sq::explore_tree(
+      "seq", NVAL, depth, 64, [](const std::vector<int> &h, const std::string &rp) { return run_sequence(h, rp, false); },
+      [](const std::vector<int> &h) { return std::string("stream round trip|crash|") + (h.empty() ? "empty sequence" : VCLS[h.back()]); });
   sq::remove_scratch();
   vr::note("value alphabet of " + std::to_string(NVAL) + ", sequences of length <= " + std::to_string(depth) + "; a sequence that fails the round trip is not extended and its truncations are not run");
   return vr::finish();
